@@ -26,6 +26,10 @@ ImplP2P == Built => /\ Len(R.p2p) = Len(R.p2s)
 (* the primitive cell's own atoms are the p2s atoms modulo the primitive lattice *)
 ImplPrimAtoms == Built => /\ Len(R.pu) = Len(R.p2s)
                           /\ \A i \in 1..Len(R.p2s) : KeyP(ev.pin, R.pu[i]) = kP[R.p2s[i]]
+(* positions_to_reorder honoured: primitive atom i sits at the i-th requested position (modulo LP) *)
+ImplReorder == (Built /\ ev.pin.reorder # <<>>) =>
+                 /\ Len(R.pu) = Len(ev.pin.reorder)
+                 /\ \A i \in 1..Len(R.pu) : KeyP(ev.pin, R.pu[i]) = KeyP(ev.pin, ev.pin.reorder[i])
 ImplPrimLattice == Built => R.latticeOK
 ImplPrimAttributes == Built => R.attrsOK
 ImplPrimExact == Built => R.exact
